@@ -254,6 +254,7 @@ package check
 //@   ensures result != nil
 
 //@ func (*Engine).BatchCheck
+//@   opt no-direct-elem-writes results
 //@   modifies engineCalls, engineAllowed, engineFailed, faulted, db
 //@   ensures[C17] read-only: db == old(db)
 //@   noframe
